@@ -159,12 +159,13 @@ def render(table):
     pairs = [(name, p) for name in sorted(table) for p in table[name]["pairs"]]
     out.append("def batchPairs : List (String × String × String) := [%s]" % ", ".join(
         "(%s, %s, %s)" % (lean_str(n), lean_str(p[0]), lean_str(p[1])) for n, p in pairs))
-    out.append("/-- the same pairs as they are spelled in the source (function, line of the `if`, batched, plain) -/")
-    out.append("def batchPairsOrig : List (String × Nat × String × String) := [%s]" % ", ".join(
-        "(%s, %d, %s, %s)" % (lean_str(n), p[4], lean_str(p[2]), lean_str(p[3])) for n, p in pairs))
+    # (no line numbers in the generated file: a harmless edit that shifts lines must not change it)
+    out.append("/-- the same pairs as they are spelled in the source (function, batched, plain) -/")
+    out.append("def batchPairsOrig : List (String × String × String) := [%s]" % ", ".join(
+        "(%s, %s, %s)" % (lean_str(n), lean_str(p[2]), lean_str(p[3])) for n, p in pairs))
     unp = [(name, u) for name in sorted(table) for u in table[name]["unpaired"]]
-    out.append("def batchUnpaired : List (String × Nat × String × String) := [%s]" % ", ".join(
-        "(%s, %d, %s, %s)" % (lean_str(n), u[2], lean_str(u[1]), lean_str(u[0])) for n, u in unp))
+    out.append("def batchUnpaired : List (String × String × String) := [%s]" % ", ".join(
+        "(%s, %s, %s)" % (lean_str(n), lean_str(u[1]), lean_str(u[0])) for n, u in unp))
     out.append("")
     out.append("def batchGuards : List String := [%s]" % ", ".join(lean_str(x) for x in sorted(guards)))
     out += ["", "end TN.Generated", ""]
